@@ -25,7 +25,7 @@ FILES = ["pymemcache/client/base.py", "pymemcache/client/hash.py", "pymemcache/p
          "pymemcache/client/murmur3.py", "pymemcache/client/rendezvous.py", "pymemcache/client/retrying.py",
          "pymemcache/fallback.py", "pymemcache/client/ext/aws_ec_client.py"]
 CHECKS = {
-    "pymemcache/client/base.py": ["C05", "C16", "C02", "C01", "C06", "C07", "C03", "C04", "C09", "C10", "C20", "C12", "C19"],
+    "pymemcache/client/base.py": ["C05", "C16", "C02", "C01", "C06", "C07", "C03", "C04", "C09", "C10", "C20", "C12", "C19", "C08"],
     "pymemcache/client/hash.py": ["C12", "C13", "C07", "C16", "C11", "C20", "C19", "C10", "C01"],
     "pymemcache/pool.py": ["C09", "C16", "C10", "C08"],
     "pymemcache/serde.py": ["C15", "C04", "C07"],
@@ -336,7 +336,9 @@ def phase_run(maxn, seed, conc):
             done[(m["file"], m["k"])] = m
     rng = random.Random(seed)
     rng.shuffle(surv)
-    todo = [m for m in surv if (m["file"], m["k"]) not in done][:maxn]
+    # categories read once and found equivalent for the properties (see DESIGN 7.5) are not re-run
+    skip = ("destroy_on_fail", "logger.", "logging.")
+    todo = [m for m in surv if (m["file"], m["k"]) not in done and not any(x in m["op"] for x in skip)][:maxn]
     print("survivors of the suite:", len(surv), "already evaluated:", len(done), "to do now:", len(todo), flush=True)
     import threading
     slots = {}
